@@ -17,7 +17,7 @@ open Rzmq
 theorem source_shape :
     Gen.MAX_RECORD_PLAINTEXT = 65519 ∧ Gen.recordsAreChunked = 2 ∧ Gen.recordLengthChecked = 1
     ∧ Gen.recordReaderAppendsPlaintext = 1 ∧ Gen.controlFramesThroughFramer = 2 ∧ Gen.curveNonceIncrementsPerRecord = 2
-    ∧ Gen.noiseRefusesOversizeRecord = 1 := by
+    ∧ Gen.noiseRefusesOversizeRecord = 1 ∧ Gen.priorityPushesGuardedByKeepOrder = 1 := by
   decide
 
 -- everything the endpoint emits is decodable ------------------------------------------------------------------------------------
